@@ -3,6 +3,7 @@
 case = {'layout': 'multi'|'shared',
         'data': {'kids': [parent choice per kid 1..4], 'links': [bitmask of tags per parent 1..2], 'vals': [ints]},
         'actors': [reader, writer, (writer)],  actor = {'session': {}, 'ops': [...], 'end': 'commit'},
+                   reader may carry 'catch': True = it catches UnrepeatableReadError per operation and keeps using the session
         'schedule': [ints]}
 Actor 0 is the reader (it may assign scalar attributes itself, flush and commit() in the middle of its db_session; what it
 assigned counts as observed from then on); the others are writers (ordinary optimistic Pony sessions).
@@ -215,6 +216,7 @@ def make_reader_exec(case):
         P, K, T = st.classes['P'], st.classes['K'], st.classes['T']
         name = op[0]
         out = []
+        st.data['cur_out'] = out
         rec = {'op': name, 'obs': out}
         n_q = st.data.setdefault('nq', [0])
         if name == 'attr':
@@ -380,7 +382,22 @@ def make_exec(case):
     writer = make_writer_exec(case)
 
     def exec_op(st, op):
-        return reader(st, op) if st.idx == 0 else writer(st, op)
+        if st.idx != 0:
+            return writer(st, op)
+        if not st.spec.get('catch'):
+            return reader(st, op)
+        # the application catches the loud error and keeps using its db_session
+        try:
+            return reader(st, op)
+        except Exception as e:
+            if type(e).__name__ != 'UnrepeatableReadError':
+                raise
+            out = st.data.get('cur_out') or []
+            seen = st.data.setdefault('seen', [])
+            for key, val in out:
+                if key not in seen:
+                    seen.append(key)
+            return {'op': op[0], 'obs': out, 'caught': str(e)[:160]}
     return exec_op
 
 
@@ -399,7 +416,8 @@ def fmt_trace(case, events):
             v = ev['value']
             r = ''
             if isinstance(v, dict):
-                r = ' '.join(filter(None, [v.get('kind', ''), 'rows=%s' % v['rows'] if 'rows' in v else '',
+                r = ' '.join(filter(None, [v.get('kind', ''), 'CAUGHT UnrepeatableReadError: %s' % v['caught'] if v.get('caught') else '',
+                                           'rows=%s' % v['rows'] if 'rows' in v else '',
                                            'observed=%s' % v['obs'] if v.get('obs') else '']))
             elif ev['before'] != ev['after']:
                 r = 'COMMITTED'
@@ -470,6 +488,11 @@ def judge(case, events, states):
             continue
         if ev['outcome'] != 'ok' or is_end:
             continue
+        if ev['value'].get('caught'):
+            v.classes.add('unrepeatable')
+            v.classes.add('caught_and_continued')
+            if reader_fail is None:
+                reader_fail = (ev['step'], 'UnrepeatableReadError')
         for key, val in ev['value'].get('wrote', ()):
             v.classes.add('own_write')
             own_written[tuple(key)] = ev['step']
